@@ -5,13 +5,16 @@ PROP = dict(
             "the curated universe is a finite sample of the value space: the ordering laws are decided exhaustively for it, and by random universes for generated values, not for all values",
             "a pair of an integer-encoded number and a float on which the repo's comparison differs from exact arithmetic is the known finding C06/int-float-compare-lossy; sort/merge cases whose key column contains such a pair are only checked for permutation",
             "merge inputs are sorted by the harness with the repo's own comparator; memory limits are the exported knob sort.MemMaxBytes",
+            "sort cases whose record shapes disagree on a key field's position are run with spills only when the stale field index cannot exceed a record's field count (open finding C06/sort/spill-compares-in-foreign-context panics in the operator's goroutine otherwise); their spilled outputs are attributed to that finding",
+            "fork|merge in a compiled query is fed one batch per non-empty run (anything else deadlocks: open finding C06/merge/fork-backpressure-deadlock); generated batch boundaries and empty runs go through merge.New directly",
+            "null placement per key follows docs/language/operators/sort.md (nulls last, or first with -nulls first, for ascending and descending keys alike)",
         ],
         level_text="Exploration with an exhaustively enumerated sub-space: all ordered pairs and triples of a curated universe of boundary values of every type are enumerated for both null placements (ordering laws; agreement of Comparator.Compare, NewValueCompareFn, compare() in a compiled query and the bulk sorter on 2-/3-element slices). The sort and merge operators are sampled by rapid: sequences x sort specs x four memory limits (spill-free to one run per batch) and k-way merges with generated batch boundaries.",
         level_note="Trusted: the harness's stable reference sort (sort.SliceStable over the repo's single-key comparators composed lexicographically as docs/language/operators/sort.md describes), math/big for exact integer/float comparison. Not covered: the lake's comparator wrapper (zbuf.NewComparator), values outside the universe for the exhaustive part, decimals/128-bit types (not implemented in the repo).",
         technique="property-based testing (rapid): exhaustive enumeration of algebraic laws over a finite universe; metamorphic (memory limit) and reference-sort oracles for the operators",
         tests=[
             dict(name="TestOrderLaws", quick=(8, 1), thorough=(16, 1)),
-            dict(name="TestOrderLawsSampled", quick=(2, 60), thorough=(8, 600)),
+            dict(name="TestOrderLawsSampled", quick=(4, 250), thorough=(8, 3000)),
             dict(name="TestSortOp", quick=(8, 300), thorough=(16, 5000)),
             dict(name="TestMerge", quick=(4, 300), thorough=(8, 4000)),
         ],
